@@ -26,27 +26,39 @@ def eff_tags(f, clause):
     return ctags if ctags else f.tags
 
 
-def unit_obligations(unit, prop):
-    """Obligation slots of `prop` in a woven unit: explicit clauses tagged with
-    it, plus (if the function lists it under safety=) one slot for the bundle of
-    automatic safety obligations, one per debug assertion and one per loop
-    (termination)."""
+def prop_modules(unit, prop):
+    mods = []
+    for f in unit.fns:
+        if prop in f.tags or prop in f.safety or any(prop in (c[2] or []) for c in f.clauses):
+            if f.module not in mods:
+                mods.append(f.module)
+    for (gl, cid, ctags, m) in unit.tmpl_clauses:
+        if ctags and prop in ctags and m not in mods:
+            mods.append(m)
+    return mods
+
+
+def unit_obligations(unit, prop, module):
+    """Obligation slots of `prop` in one module of the woven crate: explicit
+    clauses tagged with it, plus (if the function lists it under safety=) one
+    slot for the bundle of automatic safety obligations, one per debug assertion
+    and one per loop (termination)."""
     slots = []
     for f in unit.fns:
-        if f.external_body:
+        if f.external_body or f.module != module:
             continue
         for c in f.clauses:
             if prop in eff_tags(f, c):
-                slots.append('%s.%s#%s' % (unit.name, f.addr, c[1] or ('L%d' % c[0])))
+                slots.append('%s.%s#%s' % (module, f.addr, c[1] or ('L%d' % c[0])))
         if prop in f.safety:
-            slots.append('%s.%s#auto:safety' % (unit.name, f.addr))
+            slots.append('%s.%s#auto:safety' % (module, f.addr))
             for k in range(f.n_debug_asserts):
-                slots.append('%s.%s#auto:debug_assert[%d]' % (unit.name, f.addr, k + 1))
+                slots.append('%s.%s#auto:debug_assert[%d]' % (module, f.addr, k + 1))
             for k in range(f.n_loops):
-                slots.append('%s.%s#auto:termination[loop %d]' % (unit.name, f.addr, k + 1))
-    for (gl, cid, ctags) in unit.tmpl_clauses:
-        if ctags and prop in ctags:
-            slots.append('%s.<lemma>#%s' % (unit.name, cid or ('L%d' % gl)))
+                slots.append('%s.%s#auto:termination[loop %d]' % (module, f.addr, k + 1))
+    for (gl, cid, ctags, m) in unit.tmpl_clauses:
+        if ctags and prop in ctags and m == module:
+            slots.append('%s.<lemma>#%s' % (module, cid or ('L%d' % gl)))
     return slots
 
 
@@ -109,47 +121,43 @@ def match_known(known, prop, key, stext):
     return None
 
 
-def run_unit(name, tier, seed):
+def run_module(unit, path, module, seed):
     t0 = time.time()
-    unit = weave.build_unit(name)
-    res, path = runverus.run_verus(unit, rlimit=30)
+    res = runverus.run_verus_path(path, rlimit=30, module=module)
     fails, und, hard = runverus.classify(unit, res, path)
     unstable = []
     # stability policy: undecided obligations are retried with 4x rlimit and
-    # other seeds; only if every retry is undecided does the unit stay undecided
+    # other seeds; only if every retry is undecided does the module stay undecided
     if und and not hard:
         for attempt, s in enumerate([seed % 1000 + 1, seed % 1000 + 7]):
-            res2, path2 = runverus.run_verus(
-                unit, rlimit=120, extra=['--smt-option', 'smt.random_seed=%d' % s])
-            f2, u2, h2 = runverus.classify(unit, res2, path2)
+            res2 = runverus.run_verus_path(
+                path, rlimit=120, module=module,
+                extra=['--smt-option', 'smt.random_seed=%d' % s])
+            f2, u2, h2 = runverus.classify(unit, res2, path)
             unstable.append(dict(attempt=attempt + 1, seed=s, undecided=len(u2)))
             if not u2 and not h2:
                 res, fails, und, hard = res2, f2, u2, h2
                 break
-    return dict(unit=unit, res=res, fails=fails, undecided=und, hard=hard,
-                unstable=unstable, wall=time.time() - t0, path=path)
+    return dict(res=res, fails=fails, undecided=und, hard=hard,
+                unstable=unstable, wall=time.time() - t0)
 
 
-def vacuity_probe(name):
+def vacuity_probe(unit, modules):
     """DESIGN 3.6: with `assert(false)` as the first statement of every
     contracted function, every function must FAIL; one that still verifies has
     a contradictory pre-condition."""
-    unit = weave.build_unit(name)
     probe_lines = {}
     new_lines, new_origin = [], []
     fn_open = {}
     for f in unit.fns:
-        if f.external_body:
+        if f.external_body or f.module not in modules:
             continue
-        # first line at/after the last signature line that is exactly '{' or ends with '{' (the body brace)
-        for gl in range(f.gen_start, f.gen_end + 1):
+        last_clause = max([c[0] for c in f.clauses if c[3] == 'sig'] + [f.gen_start])
+        for gl in range(last_clause, f.gen_end + 1):
             t = unit.lines[gl - 1]
-            if unit.origin[gl - 1][0] == 's' and t.strip().endswith('{') and gl >= f.gen_start:
-                # body brace is the first src line ending in '{' after the clauses
-                last_clause = max([c[0] for c in f.clauses if c[3] == 'sig'] + [f.gen_start])
-                if gl >= last_clause or not f.clauses:
-                    fn_open[gl] = f
-                    break
+            if unit.origin[gl - 1][0] == 's' and t.strip().endswith('{'):
+                fn_open[gl] = f
+                break
     for idx, (t, o) in enumerate(zip(unit.lines, unit.origin)):
         new_lines.append(t)
         new_origin.append(o)
@@ -158,18 +166,23 @@ def vacuity_probe(name):
             new_lines.append('        assert(false); // vacuity probe')
             new_origin.append(('t', 'probe', 0))
             probe_lines[len(new_lines)] = f
-    unit2 = weave.Unit(name)
+    unit2 = weave.Unit(unit.name)
     unit2.lines, unit2.origin = new_lines, new_origin
-    res, path = runverus.run_verus(unit2, rlimit=30, multiple_errors=0, suffix='.probe')
+    path = runverus.write_unit(unit2, '.probe')
     failed_fns = set()
-    for d in res['diags']:
-        if d.get('level') != 'error':
-            continue
-        for s in runverus.all_spans(d):
-            if s[0] and os.path.basename(s[0]) == os.path.basename(path) and s[1] in probe_lines:
-                failed_fns.add(probe_lines[s[1]].addr)
-    expected = set(f.addr for f in probe_lines.values())
-    vacuous = sorted(expected - failed_fns)
+
+    def one(m):
+        return runverus.run_verus_path(path, rlimit=30, multiple_errors=0, module=m)
+    with cf.ThreadPoolExecutor(max_workers=4) as ex:
+        for res in ex.map(one, modules):
+            for d in res['diags']:
+                if d.get('level') != 'error':
+                    continue
+                for s in runverus.all_spans(d):
+                    if s[0] and os.path.basename(s[0]) == os.path.basename(path) and s[1] in probe_lines:
+                        failed_fns.add((probe_lines[s[1]].module, probe_lines[s[1]].addr))
+    expected = set((f.module, f.addr) for f in probe_lines.values())
+    vacuous = sorted('%s.%s' % x for x in (expected - failed_fns))
     return dict(probed=len(expected), reachable=len(failed_fns), vacuous=vacuous)
 
 
@@ -190,23 +203,28 @@ def check_property(prop, tier='quick', seed=0, kani_runner=None):
     t0 = time.time()
     index = load_units_index()
     pinfo = index['properties'].get(prop)
-    if pinfo is None:
+    if pinfo is None or prop not in json.load(open(os.path.join(VERIF, 'contracts', 'manifest_texts.json')))['claimed']:
         print('property %s has no check (see MANIFEST not_applicable)' % prop, file=sys.stderr)
         return 2
-    unit_names = pinfo['units']
     known = load_known()
     results = {}
     errors = []
-    with cf.ThreadPoolExecutor(max_workers=min(6, max(1, len(unit_names)))) as ex:
-        futs = {ex.submit(run_unit, n, tier, seed): n for n in unit_names}
-        for fu in cf.as_completed(futs):
-            n = futs[fu]
-            try:
-                results[n] = fu.result()
-            except ExtractError as e:
-                errors.append('%s: %s' % (n, e))
-            except Exception as e:  # tool crash
-                errors.append('%s: internal error %r' % (n, e))
+    try:
+        unit = weave.build_unit()
+    except ExtractError as e:
+        unit = None
+        errors.append('extraction: %s' % e)
+    unit_names = prop_modules(unit, prop) if unit else []
+    if unit:
+        path = runverus.write_unit(unit)
+        with cf.ThreadPoolExecutor(max_workers=4) as ex:
+            futs = {ex.submit(run_module, unit, path, n, seed): n for n in unit_names}
+            for fu in cf.as_completed(futs):
+                n = futs[fu]
+                try:
+                    results[n] = fu.result()
+                except Exception as e:  # tool crash
+                    errors.append('%s: internal error %r' % (n, e))
 
     violations, known_hits, undecided_msgs = [], [], list(errors)
     obligations, failed_slots = [], set()
@@ -218,17 +236,14 @@ def check_property(prop, tier='quick', seed=0, kani_runner=None):
         r = results.get(n)
         if not r:
             continue
-        unit = r['unit']
-        slots = unit_obligations(unit, prop)
+        slots = unit_obligations(unit, prop, n)
         obligations += slots
         by_backend['verus'] += len(slots)
         for f in unit.fns:
-            if prop in f.tags or prop in f.safety or any(prop in (c[2] or []) for c in f.clauses):
-                fn_list.append(dict(fn='%s.%s' % (unit.name, f.addr), src='%s:%d' % (f.src, f.src_line),
+            if f.module == n and (prop in f.tags or prop in f.safety or any(prop in (c[2] or []) for c in f.clauses)):
+                fn_list.append(dict(fn='%s.%s' % (n, f.addr), src='%s:%d' % (f.src, f.src_line),
                                     src_sha=f.src_hash, verified_text_sha=f.gen_hash,
                                     rules=f.rules, assumed=f.external_body))
-        for t in weave.trusted_scan(unit):
-            trusted.add(t)
         summ = (r['res'].get('summary') or {})
         solver_ms += int(((summ.get('times-ms') or {}).get('smt') or {}).get('total', 0) or 0)
         if r['unstable']:
@@ -267,6 +282,12 @@ def check_property(prop, tier='quick', seed=0, kani_runner=None):
             for s in slots[:3]:
                 samples.append(dict(obligation=s, backend='verus', result='failed' if s in failed_slots else 'discharged'))
 
+    if unit:
+        for t in weave.trusted_scan(unit):
+            trusted.add(t)
+    # hard errors are the same in every module run: report once
+    undecided_msgs = list(dict.fromkeys(undecided_msgs))
+
     # Kani part (thorough tier, or quick harnesses)
     kani_info = None
     if kani_runner is not None:
@@ -293,15 +314,13 @@ def check_property(prop, tier='quick', seed=0, kani_runner=None):
 
     vac = None
     if tier == 'thorough':
-        vac = {}
-        for n in unit_names:
-            try:
-                vac[n] = vacuity_probe(n)
-                if vac[n]['vacuous']:
-                    undecided_msgs.append('%s: vacuity probe: functions with contradictory '
-                                          'pre-conditions: %s' % (n, vac[n]['vacuous']))
-            except Exception as e:
-                undecided_msgs.append('%s: vacuity probe failed: %r' % (n, e))
+        try:
+            vac = vacuity_probe(unit, unit_names)
+            if vac['vacuous']:
+                undecided_msgs.append('vacuity probe: functions with contradictory '
+                                      'pre-conditions: %s' % vac['vacuous'])
+        except Exception as e:
+            undecided_msgs.append('vacuity probe failed: %r' % (e,))
 
     n_obl = len(obligations)
     if n_obl == 0:
@@ -330,7 +349,7 @@ def check_property(prop, tier='quick', seed=0, kani_runner=None):
         rc = 2
 
     wall = time.time() - t0
-    checker_cmd = 'verus build/<unit>.rs --error-format=json --output-json --time --multiple-errors 20 --rlimit 30' \
+    checker_cmd = 'verus build/cfb.rs --verify-module <m> --error-format=json --output-json --time --multiple-errors 20 --rlimit 30  (m in %s)' % ','.join(unit_names) \
         + ('; cargo kani -Z function-contracts -Z stubbing --harness <h>' if kani_info and kani_info['harnesses'] else '')
     ev = dict(
         property_id=prop, tier=tier, seed=seed, level='proof',
